@@ -35,6 +35,12 @@ func NewAppendOnlyTree(db *sql.DB, dbPrefix string) *AppendOnlyTree {
 }
 
 func (t *AppendOnlyTree) AddLeaf(tx dbtypes.Txer, blockNum, blockPosition uint64, leaf types.Leaf) error {
+	// The cached frontier (lastIndex, lastLeftCache) is modified in place below. If the tx is rolled back,
+	// invalidate it so that the next AddLeaf rebuilds it from the DB instead of reusing stale siblings.
+	tx.AddRollbackCallback(func() {
+		log.Debugf("invalidating append only tree cache due to rollback")
+		t.lastIndex = -2
+	})
 	if int64(leaf.Index) != t.lastIndex+1 {
 		// rebuild cache
 		if err := t.initCache(tx); err != nil {
@@ -81,10 +87,6 @@ func (t *AppendOnlyTree) AddLeaf(tx dbtypes.Txer, blockNum, blockPosition uint64
 		return err
 	}
 	t.lastIndex++
-	tx.AddRollbackCallback(func() {
-		log.Debugf("decreasing index due to rollback")
-		t.lastIndex--
-	})
 	return nil
 }
 
